@@ -78,7 +78,10 @@ def field_kwargs(fdef):
 
 
 def make_field(fdef):
-    return field_class(fdef['kind'])(**field_kwargs(fdef))
+    cls = field_class(fdef['kind'])
+    if fdef['kind'] == 'ManyToMany' and fdef.get('subclass'):
+        from .customfields import SubM2M as cls
+    return cls(**field_kwargs(fdef))
 
 
 def make_meta_objects(meta):
